@@ -1,5 +1,6 @@
 import TerwayModel.Model.Ipam
 import TerwayModel.Proofs.Daemon
+import TerwayModel.Proofs.Agent
 /-
 C03 — an address is reclaimed only after the pod is gone and its teardown confirmed.
 Controller side: `release` (releasePodNotFound), `trimEniOK` (releaseUnUsedIP), `assignOK` in `Model/Ipam.lean`.
@@ -153,7 +154,104 @@ theorem c03_agent_ignores_stale_del (s : Svc) (p cid : String) (v : PodGet) (r :
   unfold delBody
   cases v <;> simp [hr, hc]
 
+/-! ## node agent: what is written into the NodeRuntime object (Model/Agent.lean) -/
+
+/-- **in every history** of processed DELs, report passes, IPAM reconciliations of the NodeRuntime, clean-up passes
+    (with any answers of the API server, including failed look-ups) and failed writes: a pod UID is reported as
+    torn down (`deleted` stamp in the NodeRuntime) only if the daemon processed a CNI DEL for it or the API
+    server answered "no such pod on this node" for it during a clean-up pass -/
+theorem c03_agent_reports_only_processed_or_verified (evs : List Agent.Ev) (e : Agent.Entry)
+    (he : e ∈ (Agent.run {} evs).rt) (hd : e.deleted = true) :
+    e.uid ∈ (Agent.run {} evs).dels ∨ e.uid ∈ (Agent.run {} evs).verified :=
+  (Agent.Inv.init.run evs).1 e he hd
+
+/-- one clean-up pass stamps `deleted` only on entries that are not recorded locally, whose `initial` stamp is older
+    than 30 s, whose pod id is well-formed and for which the API server answered "absent": a failed look-up
+    (`Verdict.failed`) or a present pod never leads to a report -/
+theorem c03_agent_clean_needs_absent (s : Agent.St) (l : List Nat) (v : Nat → Agent.Verdict) (ok : Bool) (e : Agent.Entry)
+    (he : e ∈ (Agent.step s (.clean l v ok)).rt) (hd : e.deleted = true) :
+    (∃ e0 ∈ s.rt, e0.uid = e.uid ∧ e0.deleted = true) ∨
+    (v e.uid = .absent ∧ e.uid ∉ l ∧ ∃ e0 ∈ s.rt, e0.uid = e.uid ∧ e0.recent = false ∧ e0.okID = true) := by
+  simp only [Agent.step] at he
+  split at he
+  · simp only [List.mem_map] at he
+    obtain ⟨e0, he0, rfl⟩ := he
+    by_cases hc : Agent.cleanHits l v e0 = true
+    · right
+      simp only [hc, if_true]
+      unfold Agent.cleanHits at hc
+      simp only [Bool.and_eq_true, Bool.not_eq_true', beq_iff_eq] at hc
+      obtain ⟨⟨⟨⟨h1, _⟩, h3⟩, h4⟩, h5⟩ := hc
+      refine ⟨h5, ?_, e0, he0, rfl, h3, h4⟩
+      intro hm
+      have : l.contains e0.uid = true := by simpa using hm
+      rw [this] at h1; cases h1
+    · left
+      simp only [hc] at hd ⊢
+      exact ⟨e0, he0, rfl, hd⟩
+  · exact .inl ⟨e, he, rfl, hd⟩
+
+/-- a processed DEL is reported by the next report pass that succeeds -/
+theorem c03_agent_processed_del_reported (s : Agent.St) (uid : Nat) (okID : Bool) :
+    ∃ e ∈ (Agent.step (Agent.step s (.del uid okID)) (.sync true)).rt, e.uid = uid ∧ e.deleted = true := by
+  have key : ∀ (ps : List (Nat × Bool)) (rt : List Agent.Entry), (∃ p ∈ ps, p.1 = uid) ∨ (∃ e ∈ rt, e.uid = uid ∧ e.deleted = true) →
+      ∃ e ∈ ps.foldl (fun rt p => Agent.setDeleted rt p.1 p.2) rt, e.uid = uid ∧ e.deleted = true := by
+    intro ps
+    induction ps with
+    | nil => intro rt h; rcases h with ⟨p, hp, _⟩ | h; · cases hp
+             · exact h
+    | cons q qs ih =>
+      intro rt h
+      simp only [List.foldl_cons]
+      apply ih
+      by_cases hq : q.1 = uid
+      · right
+        unfold Agent.setDeleted
+        by_cases hany : (rt.any (·.uid == q.1)) = true
+        · rw [if_pos hany]
+          obtain ⟨x, hx, hxu⟩ := List.any_eq_true.mp hany
+          have hxu' : x.uid = q.1 := by simpa using hxu
+          exact ⟨{ x with deleted := true }, List.mem_map.mpr ⟨x, hx, by simp [hxu']⟩, by simp [hxu', hq], rfl⟩
+        · rw [if_neg hany]
+          exact ⟨_, List.mem_append_right _ (List.mem_singleton.mpr rfl), hq, rfl⟩
+      · rcases h with ⟨p, hp, hpu⟩ | ⟨e, he, heu, hed⟩
+        · rcases List.mem_cons.mp hp with rfl | hp'
+          · exact absurd hpu hq
+          · exact .inl ⟨p, hp', hpu⟩
+        · right
+          unfold Agent.setDeleted
+          by_cases hany : (rt.any (·.uid == q.1)) = true
+          · rw [if_pos hany]
+            refine ⟨e, List.mem_map.mpr ⟨e, he, ?_⟩, heu, hed⟩
+            have : e.uid ≠ q.1 := by rw [heu]; exact fun h => hq h.symm
+            simp [this]
+          · rw [if_neg hany]
+            exact ⟨e, List.mem_append_left _ he, heu, hed⟩
+  have hp : ∃ p ∈ (Agent.step s (.del uid okID)).pending, p.1 = uid := by
+    simp only [Agent.step]
+    split
+    · rename_i hany
+      obtain ⟨x, hx, hxu⟩ := List.any_eq_true.mp hany
+      have hxu' : x.1 = uid := by simpa using hxu
+      exact ⟨(uid, okID), List.mem_map.mpr ⟨x, hx, by simp [hxu']⟩, rfl⟩
+    · exact ⟨(uid, okID), List.mem_append_right _ (List.mem_singleton.mpr rfl), rfl⟩
+  have hne : (Agent.step s (.del uid okID)).pending.isEmpty = false := by
+    obtain ⟨p, hp', _⟩ := hp
+    cases h : (Agent.step s (.del uid okID)).pending with
+    | nil => rw [h] at hp'; cases hp'
+    | cons _ _ => rfl
+  generalize Agent.step s (.del uid okID) = s1 at hp hne ⊢
+  have hstep : (Agent.step s1 (.sync true)).rt = s1.pending.foldl (fun rt p => Agent.setDeleted rt p.1 p.2) s1.rt := by
+    simp [Agent.step, hne]
+  rw [hstep]
+  exact key _ _ (.inl hp)
+
 /-! ## non-vacuity -/
+
+example : ((Agent.run {} [.back [(1, true)] true, .age, .clean [] (fun _ => .failed) true]).rt.map (·.deleted)) = [false] := by decide
+example : ((Agent.run {} [.back [(1, true)] true, .age, .clean [] (fun _ => .absent) true]).rt.map (·.deleted)) = [true] := by decide
+example : ((Agent.run {} [.back [(1, true)] true, .clean [] (fun _ => .absent) true]).rt.map (·.deleted)) = [false] := by decide
+
 
 def x0 : Entry := { ip := 102, status := .valid, pod := "p1", uid := "u1", primary := false }
 
